@@ -254,37 +254,10 @@ def index_obligations(ctx, prefix):
                         clause='select(m, default) returns default, or idx[K].get(m[K], empty) for a key K all of whose properties m answers -- on every path over symbolic bucket sizes and bucket existence'))
         # ---------------- (C) lemma + Node.meets against its contract
         fn, fi = fn_of(Node, 'meets'); where = ctx.under_contract(fi)
+        from pyvc.par import pmap
         bad = []; badm = []; cases = 0
-        it = Interp(Path([]), world)
-        for pres in shapes():
-            nf = {f: Tok(f'v_{f}') for f in pres}
-            n = NodeM('n', nf)
-            for kind in ('node', 'dict'):
-                for rel in itertools.product(('absent', 'same', 'other', 'none'), repeat=len(FIELDS)):
-                    mf = {}
-                    skip = False
-                    for f, r in zip(FIELDS, rel):
-                        if r == 'same':
-                            if f not in nf: skip = True; break
-                            mf[f] = nf[f]
-                        elif r == 'other': mf[f] = Tok(f'o_{f}')
-                        elif r == 'none':
-                            if f not in defaults(): skip = True; break
-                            mf[f] = None
-                    if skip: continue
-                    cases += 1
-                    m = NodeM('m', mf) if kind == 'node' else DictM(mf)
-                    got = it.call_source(fi, fn, Node, [n, m], {})
-                    want = all(spec_get(nf, k)[0] and _same(spec_get(nf, k)[1], mf[k]) for k in mf)
-                    if bool(got) != want: badm.append(f'n {list(pres)} meets {kind} {rel}: {got}, contract {want}')
-                    if not want: continue
-                    if kind == 'node' and any(d not in mf and spec_get(nf, d)[1] is not None for d in defaults()): continue     # precondition
-                    for K in KEYS:
-                        mo = [spec_get(mf, k, kind == 'node') for k in K]
-                        if not all(o for o, _ in mo): continue
-                        no = [spec_get(nf, k) for k in K]
-                        if not all(o for o, _ in no) or not all(_same(a[1], b[1]) for a, b in zip(no, mo)):
-                            bad.append(f'n {list(pres)} meets {kind} {rel} but n[{K}] != m[{K}]')
+        for c_, b_, bm_ in pmap(_lemma_shape, [(pres, KEYS) for pres in shapes()]):
+            cases += c_; bad += b_; badm += bm_
         ctx.add(enum_ob(f'{prefix}.Node.meets.contract', not badm, where, cases=cases, cex=dict(bad=badm[:6]),
                         clause='n.meets(m) iff for every key of m, n answers it (own or default) with an equal value'))
         ctx.add(enum_ob(f'{prefix}.index.meeting-node-is-in-every-answered-bucket', not bad, where, cases=cases, cex=dict(bad=bad[:6]),
@@ -316,6 +289,44 @@ def index_obligations(ctx, prefix):
                         clause='search(m) yields exactly the members of _index.select(m, self) that meet m, in order; find(m) is the first of them or None; has(m) is find(m) is not None'))
     except Outside as e:
         ctx.add_result(Result(f'{prefix}.index', 'unknown', detail=f'outside subset: {e}'))
+
+def _lemma_shape(job):
+    "lemma (C) and the contract of Node.meets for one presence pattern of the node, every mapping kind / presence / value relation"
+    pres, KEYS = job
+    from pytableaux.proof import Node
+    fn = Node.__dict__['meets']; fi = source.of_function(fn)
+    world = index_world()
+    it = Interp(Path([]), world)
+    bad = []; badm = []; cases = 0
+    nf = {f: Tok(f'v_{f}') for f in pres}
+    n = NodeM('n', nf)
+    for kind in ('node', 'dict'):
+        for rel in itertools.product(('absent', 'same', 'other', 'none'), repeat=len(FIELDS)):
+            mf = {}
+            skip = False
+            for f, r in zip(FIELDS, rel):
+                if r == 'same':
+                    if f not in nf: skip = True; break
+                    mf[f] = nf[f]
+                elif r == 'other': mf[f] = Tok(f'o_{f}')
+                elif r == 'none':
+                    if f not in defaults(): skip = True; break
+                    mf[f] = None
+            if skip: continue
+            cases += 1
+            m = NodeM('m', mf) if kind == 'node' else DictM(mf)
+            got = it.call_source(fi, fn, Node, [n, m], {})
+            want = all(spec_get(nf, k)[0] and _same(spec_get(nf, k)[1], mf[k]) for k in mf)
+            if bool(got) != want: badm.append(f'n {list(pres)} meets {kind} {rel}: {got}, contract {want}')
+            if not want: continue
+            if kind == 'node' and any(d not in mf and spec_get(nf, d)[1] is not None for d in defaults()): continue     # precondition
+            for K in KEYS:
+                mo = [spec_get(mf, k, kind == 'node') for k in K]
+                if not all(o for o, _ in mo): continue
+                no = [spec_get(nf, k) for k in K]
+                if not all(o for o, _ in no) or not all(_same(a[1], b[1]) for a, b in zip(no, mo)):
+                    bad.append(f'n {list(pres)} meets {kind} {rel} but n[{K}] != m[{K}]')
+    return cases, bad[:6], badm[:6]
 
 def _same(a, b):
     return a is b if isinstance(a, SymVal) or isinstance(b, SymVal) else a == b
